@@ -168,6 +168,13 @@ def cases(tier, seed):
     sm.sort()
     for n, dec, cls, s in sm:
         out.extend(_lw_cases('sm', dec, cls, s, 1))
+        if n <= 130:
+            # the same single-qubit errors with the decoder built for a very low physical error rate (the rate
+            # is a prior, not a budget: a correctable error stays correctable)
+            out.extend([dict(c, rate=0.001) for c in _lw_cases('sm', dec, cls, s, 1)])
+    for sz in ((3, 3), (4, 4)):
+        for dec, cls in decs:
+            out.extend([dict(c, rate=0.001) for c in _lw_cases('tc', dec, cls, sz, (min(sz) - 1) // 2)])
     out.extend(heavy)
     return out
 
@@ -456,7 +463,7 @@ def _eval_lowweight(case):
         return k
 
     try:
-        dec = getattr(D, case['decoder'])(code, em, 0.1)
+        dec = getattr(D, case['decoder'])(code, em, case.get('rate', 0.1))
     except Exception as exc:
         res['evals'] = 1
         V.append({'key': key('decoder-construction-raises', exc=type(exc).__name__),
